@@ -17,6 +17,8 @@ class Prop:
     engine = "VT"
     quick_runs = 50000
     thorough_runs = 2000000
+    run_wall = 6.0
+    hang_rule = "did-not-terminate"  # e.g. an unbounded retry of a synchronously failing source never leaves the instant
     rule = ("seeded lists of 1-4 cold/hot/sync sources with generated timelines and terminal kinds through concat (operator, factory, "
             "iterable, +), start_with, for_in, repeat(n) / repeat()+take, retry(n) / retry()+take, catch (operator, factory, iterable, "
             "handler), on_error_resume_next (operator, factory, source factory), while_do and do_while; output (values, virtual times, "
@@ -44,7 +46,7 @@ class Prop:
             ctx.sources[0]["events"].insert(0, [10, "N", 1])
         a = {}
         if form in ("repeat", "retry"):
-            a["n"] = rng.randrange(0 if form == "repeat" else 1, 4)
+            a["n"] = rng.randrange(0, 4)
         if form in ("repeat_take", "retry_take"):
             a["take"] = rng.randrange(1, 6)
         if form == "start_with":
@@ -53,7 +55,11 @@ class Prop:
             a["v"] = [rng.randrange(0, 5) for _ in range(rng.randrange(0, 4))]
         if form in ("while_do", "do_while"):
             a["m"] = rng.randrange(0, 4)
-        return {"clock": rng.choice(["test", "test", "historical"]), "sources": ctx.sources, "form": form, "srcs": srcs, "a": a, "sub_t": 205, "horizon": 3000}
+        sc = {"clock": rng.choice(["test", "test", "historical"]), "sources": ctx.sources, "form": form, "srcs": srcs, "a": a, "sub_t": 205, "horizon": 3500}
+        off = rng.choice([None, None, None, 37, 123, 411])
+        if off and form not in ("while_do", "do_while", "catch_handler"):  # (those use callbacks with state shared across subscriptions)
+            sc["sub2_t"] = 205 + off
+        return sc
 
     def build(self, w, sc):
         f, a = sc["form"], sc["a"]
@@ -158,7 +164,7 @@ class Prop:
         out.nontrivial = out.nontrivial and nsubs >= 2
         # strictly one after another, by sequence numbers
         allsubs = sorted((x for s in w.sources.values() for x in s.subs), key=lambda x: x.sub_seq)
-        for a_, b_ in zip(allsubs, allsubs[1:]):
+        for a_, b_ in (zip(allsubs, allsubs[1:]) if sc.get("sub2_t") is None else ()):
             if a_.disp_seq is None or (a_.disp_seq > b_.sub_seq and a_.disp_t > b_.sub_t):
                 out.bad("overlapping-subscriptions", "%s: a source was subscribed at t=%s while the previous one (subscribed t=%s) was still subscribed" % (desc, b_.sub_t, a_.sub_t))
                 break
